@@ -233,17 +233,23 @@ def run(ctx):
             D = T.dense(case["tree"])
             for ch in case["word"]:
                 D = D.T if ch == "T" else D.conj().T
-            got = O.np_of(obs["dense"], *D.shape, "complex128") if list(D.shape) == obs["shape"] else None
+            def safe(rows, m_, n_):
+                try:
+                    return O.np_of(rows, m_, n_, "complex128")
+                except Exception:
+                    return None          # wrong number of entries: a shape violation, reported below
+            got = safe(obs["dense"], *D.shape) if list(D.shape) == obs["shape"] else None
             if got is None or not np.array_equal(got, D):
                 bad.append("tower dense")
             else:
                 X = O.np_of(case["X"], case["n"], case["k"], "complex128")
                 XL = O.np_of(case["XL"], case["k"], case["m"], "complex128")
-                if not np.array_equal(O.np_of(obs["res"], case["m"], case["k"], "complex128"), D @ X):
+                r_, rl_ = safe(obs["res"], case["m"], case["k"]), safe(obs["resl"], case["k"], case["n"])
+                if r_ is None or not np.array_equal(r_, D @ X):
                     bad.append("tower @ X")
-                if not np.array_equal(O.np_of(obs["resl"], case["k"], case["n"], "complex128"), XL @ D):
+                if rl_ is None or not np.array_equal(rl_, XL @ D):
                     bad.append("X @ tower")
-                if "vecl" in obs and not np.array_equal(np.array([complex(*v) for v in obs["vecl"]]), XL[0, :] @ D):
+                if "vecl" in obs and not (len(obs["vecl"]) == D.shape[1] and np.array_equal(np.array([complex(*v) for v in obs["vecl"]]), XL[0, :] @ D)):
                     bad.append("x @ tower (1-D left operand)")
         if bad or i in fs2:
             mism.append(dict(oracle_fail=bool(bad), case=case, got=obs, failed_clauses=bad, model_disagrees=(i in fs2), part="tower"))
